@@ -131,6 +131,20 @@ CLAIMED['C16'] = (
     TRUST + '; A2; M-RNG stubs; FP ops uninterpreted for the processor objects. Outside: n = 500..1100 (same loops), the hand-written .s kernels, thread_local destructor scheduling by the C++ runtime, the fftw back-end',
     'bounded symbolic execution with CBMC memory-safety and leak instrumentation (clang IR + inline asm -> C -> CBMC) + SAT/SMT portfolio', 'DESIGN.md section 4, C16')
 
+CLAIMED['C06'] = (
+    'PARTIAL (two logical threads, two context switches, small processors). History independence: for every transform of the real nayuki and spqlios '
+    'processor objects, two calls on the same symbolic input, each after an arbitrary overwrite of all scratch buffers, give bit-identical outputs '
+    '(scalar and AVX2 inline-asm lowering). Per-thread processor: two logical threads call the public IntPolynomial_ifft / TorusPolynomial_ifft / '
+    'TorusPolynomial_fft through the thread_local processor; thread-local storage is emulated with one slot per logical thread and thread B runs its '
+    'whole call at every yield point of thread A (before each store, call and asm block; one query per point, all inputs symbolic): both outputs equal '
+    'the sequential references bit for bit. Violations are replayed with two real threads on the real build. Per-call temporaries and the untouched '
+    'generator: C16, C15.',
+    TRUST + '; transform kernels (.s assembly / portable C model) replaced by an uninterpreted function of their whole buffer (nayuki kernel shown to leave its '
+    'tables untouched); processor size 16 / 4 by textual substitution of the constructor argument in the lowered copy. Outside: > 2 threads, > 2 context '
+    'switches, instruction-level interleavings, thread creation/destruction cycles, fftw back-end, data-race freedom in the C11 memory-model sense',
+    'bounded symbolic execution with emulated thread-local storage and enumerated context-switch points (clang IR + inline asm -> C -> CBMC) + SAT portfolio',
+    'DESIGN.md section 4, C06')
+
 NOT_APPLICABLE = {
     'C02': 'statistical claim (mean/stdev/tail of the phase error of the real FFT pipeline at N=1024): a solver decides for-all/exists and the for-all version is false; its deterministic mechanisms are decided under C12, C08, C07, C19, C01',
     'C10': 'double-precision rounding error of 2048-point FFTs, three of five back-ends being hand-written AVX/FMA assembly or FFTW: bit-precise FP is out of solver reach beyond N~2 and a sound real-arithmetic over-approximation exceeds the stated 2 units',
